@@ -2,6 +2,7 @@ package engine_test
 
 import (
 	"fmt"
+	"runtime/debug"
 	"strings"
 	"testing"
 
@@ -14,7 +15,9 @@ import (
 
 // c05Plant issues one call that the reference model says must be rejected and returns a
 // label, or "" when the chosen class is not applicable in the current state.
-func c05Plant(cs *vkit.Case, x *vexec.Exec, g *vexec.Gen) string {
+//
+// guard carries the generator guards of the recorded findings (see c05Guard).
+func c05Plant(cs *vkit.Case, x *vexec.Exec, g *vexec.Gen, guard c05Guard) string {
 	r := cs.R
 	m := x.M
 	live := vexec.SortedKeys(m.Idx)
@@ -38,7 +41,32 @@ func c05Plant(cs *vkit.Case, x *vexec.Exec, g *vexec.Gen) string {
 		}
 		return items
 	}
-	switch p := r.Intn(22); p {
+	// a vector whose length differs from the dimension the index was filled with: shorter
+	// or longer, down to 1 component
+	otherDim := func(d int) []float32 {
+		n := d + r.Range(1, 3)
+		if d > 1 && r.Chance(0.5) {
+			n = d - r.Range(1, min(d-1, 3))
+		}
+		v := make([]float32, n)
+		for i := range v {
+			v[i] = r.F32()
+		}
+		return v
+	}
+	// a call the reference model leaves open ("Either": the properties do not say whether an
+	// emptied index still has a dimension) was ACKNOWLEDGED: then it was no rejection, C05 has
+	// nothing to say about it, and what the engine stored for it is not this property's
+	// business (the executor's model took the supplied values). The index is dropped so that
+	// the episode goes on with states the model is sure about.
+	notRejected := func(label string) string {
+		if x.Rejected {
+			return label
+		}
+		x.VDeleteIndex(ix)
+		return label + "(acknowledged)"
+	}
+	switch p := r.Intn(29); p {
 	case 0: // duplicate id, single add (different vector + metadata)
 		if id, ok := liveID(); ok {
 			x.VAdd(ix, id, g.Vec(), map[string]any{"dup": "single"})
@@ -110,26 +138,54 @@ func c05Plant(cs *vkit.Case, x *vexec.Exec, g *vexec.Gen) string {
 			}
 			return "deleted_node"
 		}
-	case 7: // dimension mismatch, single
-		if mi != nil && len(mi.Recs) > 0 {
-			v := make([]float32, mi.Dim+r.Range(1, 3))
-			for i := range v {
-				v[i] = r.F32()
+	case 7, 22: // dimension mismatch, single: into an index that holds vectors, or into one that
+		// held vectors and was emptied (every vector deleted; perhaps vacuumed / restarted since)
+		if mi != nil && mi.Dim != 0 {
+			emptied := len(mi.Recs) == 0
+			if emptied && guard.arenaUnknown(mi) {
+				return "" // D-C05-1
 			}
-			x.VAdd(ix, "dimbad", v, nil)
+			x.VAdd(ix, "dimbad", otherDim(mi.Dim), g.Meta())
+			if emptied {
+				return notRejected("dim_single_emptied")
+			}
 			return "dim_single"
 		}
-	case 8: // dimension mismatch inside a batch
-		if mi != nil && len(mi.Recs) > 0 {
+	case 8, 23: // dimension mismatch inside a batch (one item at any position, or every item)
+		if mi != nil && mi.Dim != 0 {
+			emptied := len(mi.Recs) == 0
 			items := freshBatch(r.Range(2, 6))
-			pos := r.Intn(len(items))
-			items[pos].Vector = make([]float32, mi.Dim+1)
+			for i := range items {
+				items[i].Vector = make([]float32, mi.Dim)
+				for j := range items[i].Vector {
+					items[i].Vector[j] = r.F32()
+				}
+			}
+			label := "dim_in_batch"
+			if r.Chance(0.3) && !(emptied && guard.arenaUnknown(mi)) { // D-C05-1
+				bad := otherDim(mi.Dim)
+				for i := range items {
+					items[i].Vector = append([]float32(nil), bad...)
+				}
+				label = "dim_whole_batch"
+			} else {
+				pos := vkit.Pick(r, []int{0, len(items) / 2, len(items) - 1})
+				items[pos].Vector = otherDim(mi.Dim)
+				if emptied && pos == 0 {
+					// the first vector of a batch into an index without vectors sets the
+					// dimension: the OTHER items are the mismatching ones
+					label = "dim_in_batch_first_sets_dim"
+				}
+			}
 			if r.Chance(0.5) {
 				x.VAddBatch(ix, items)
 			} else {
 				x.VImport(ix, items)
 			}
-			return "dim_in_batch"
+			if emptied {
+				return notRejected(label + "_emptied")
+			}
+			return label
 		}
 	case 9, 10: // invalid edge properties
 		if mi != nil {
@@ -224,7 +280,7 @@ func c05Plant(cs *vkit.Case, x *vexec.Exec, g *vexec.Gen) string {
 			if r.Chance(0.5) {
 				x.SaveSnapshot()
 			} else {
-				x.Restart()
+				c05Restart(x)
 			}
 			x.VAdd(ix, id, g.Vec(), map[string]any{"dup": "after_restart"})
 			return "dup_after_restart"
@@ -232,13 +288,346 @@ func c05Plant(cs *vkit.Case, x *vexec.Exec, g *vexec.Gen) string {
 	case 21: // auto-link / config updates on unknown index
 		x.VUpdateAutoLinks("nope", []hnsw.AutoLinkRule{{MetadataField: "cat", RelationType: "r"}})
 		return "autolinks_unknown_index"
+	case 24: // vector-less add into an EMPTIED index (no live vector to take the dimension from)
+		if mi != nil && mi.Dim != 0 && len(mi.Recs) == 0 {
+			if r.Chance(0.5) {
+				x.VAdd(ix, "novec", nil, map[string]any{"k": "v"})
+			} else {
+				items := []types.BatchObject{{Id: "nv1"}, {Id: "nv2", Metadata: map[string]any{"k": "v"}}}
+				if r.Chance(0.5) {
+					x.VAddBatch(ix, items)
+				} else {
+					x.VImport(ix, items)
+				}
+			}
+			return "vectorless_into_emptied"
+		}
+	case 25: // operations on ids that existed once (deleted, or of a dropped incarnation of the index)
+		if mi != nil {
+			var gone []string
+			for _, id := range vexec.SortedKeys(m.SeenIDs) {
+				if mi.Recs[id] == nil {
+					gone = append(gone, id)
+				}
+			}
+			if len(gone) > 0 {
+				id := vkit.Pick(r, gone)
+				switch r.Intn(3) {
+				case 0:
+					x.VDelete(ix, id)
+				case 1:
+					x.VSetMetadata(ix, id, g.Meta())
+				case 2:
+					x.VEvolve(ix, id, g.Vec(), g.Meta(), "why")
+				}
+				return "gone_node"
+			}
+		}
+	case 26, 27: // evolution of a live node with a vector of another dimension
+		if id, ok := liveID(); ok && !guard.evolve {
+			if msg := c05EvolveBadDim(cs, x, ix, id, otherDim(mi.Dim), g.Meta()); msg != "" {
+				cs.Fail("%s", msg)
+			}
+			return "evolve_dim"
+		}
+	case 28: // compression of an emptied index / to a bad target while the index is emptied
+		if mi != nil && mi.Dim != 0 && len(mi.Recs) == 0 {
+			x.VCompress(ix, vkit.Pick(r, []distance.PrecisionType{distance.Float16, distance.Int8, "bogus", distance.Float32}))
+			return "compress_emptied"
+		}
 	}
 	return ""
+}
+
+// c05EvolveBadDim: VEvolve of a live node with a vector whose dimension differs from the
+// index's. The executor's VEvolve predicts the outcome from the old id only, so the call goes
+// to the engine directly; the model is left untouched (the call must be rejected: the index
+// holds vectors of another dimension, exactly as for VAdd). Besides the read-out of the
+// caller, the complete edge list (every version of every edge) must be what it was.
+func c05EvolveBadDim(cs *vkit.Case, x *vexec.Exec, ix, id string, v []float32, meta map[string]any) string {
+	x.Settle()
+	if msg := x.BindGraph(); msg != "" {
+		return "before VEvolve: " + msg
+	}
+	edges := func() string {
+		var b strings.Builder
+		for _, e := range x.RealEdges() {
+			b.WriteString(e.String())
+			b.WriteByte('\n')
+		}
+		return b.String()
+	}
+	before := edges()
+	x.Kinds = append(x.Kinds, "vevolve_baddim")
+	cs.Op("VEvolve(%s,%s,%v,%s,\"why\") [vector of another dimension]", ix, id, v, vkit.JSON(meta))
+	newID, err := x.E.VEvolve(ix, id, append([]float32(nil), v...), meta, "why")
+	x.Rejected = err != nil
+	if err == nil {
+		return fmt.Sprintf("VEvolve(%s,%s) with a %d-dim vector was acknowledged (new id %s) although the index holds %d-dim vectors", ix, id, len(v), newID, x.M.Idx[ix].Dim)
+	}
+	if after := edges(); after != before {
+		cs.Attach("edges_before", strings.Split(before, "\n"))
+		cs.Attach("edges_after", strings.Split(after, "\n"))
+		return fmt.Sprintf("rejected VEvolve(%s,%s) with a %d-dim vector (%.80s...) changed the graph: %d edge version(s) before, %d after", ix, id, len(v), err.Error(), strings.Count(before, "\n"), strings.Count(after, "\n"))
+	}
+	return ""
+}
+
+// c05Guard: narrow generator guards for the findings recorded as "known" (they lift by
+// themselves once the finding is marked fixed).
+//
+//   - D-C05-1: an index that was recovered by a restart while it held no vector, and has not
+//     taken a vector since, does not know the dimension of the arena files it still owns; a
+//     vector (or a whole batch) of another dimension passes the engine's check, is journaled,
+//     and fails at the arena. had[mi] = the index has held a vector since the last restart
+//     (then the in-memory index knows its dimension and the call is simply acknowledged or
+//     rejected up front).
+//   - D-C05-2: VEvolve with a vector of another dimension.
+type c05Guard struct {
+	arena  bool
+	evolve bool
+	had    map[*vexec.MIndex]bool
+	seenRs int
+}
+
+func newC05Guard(ctx *vkit.Ctx) c05Guard {
+	return c05Guard{arena: ctx.IsKnown(c05DArena), evolve: ctx.IsKnown(c05DEvolve), had: map[*vexec.MIndex]bool{}}
+}
+
+// sync is called after every step of the episode (no step both restarts and adds into an
+// index that was empty at the restart).
+func (gd *c05Guard) sync(x *vexec.Exec) {
+	if x.Restarts != gd.seenRs {
+		gd.seenRs = x.Restarts
+		gd.had = map[*vexec.MIndex]bool{}
+	}
+	for _, mi := range x.M.Idx {
+		if len(mi.Recs) > 0 {
+			gd.had[mi] = true
+		}
+	}
+}
+
+func (gd c05Guard) arenaUnknown(mi *vexec.MIndex) bool { return gd.arena && !gd.had[mi] }
+
+const (
+	c05DArena  = "D-C05-1"
+	c05DEvolve = "D-C05-2"
+)
+
+// c05Probes: the minimal scenarios of the recorded findings.
+func c05Probes(ctx *vkit.Ctx) {
+	// D-C05-1: add a (3-dim), delete a, restart; VAdd c (4-dim) is rejected ("failed to init
+	// arena ... dimension mismatch") AFTER its record was journaled; a is added again (its
+	// first position in the log precedes c, so the recovered index gets its dimension from a
+	// and then loads c); restart: c exists.
+	ctx.Probe(c05DArena, func(cs *vkit.Case) string {
+		x := vexec.NewExec(cs, cs.SubDir("data"))
+		defer func() {
+			if x.E != nil {
+				x.E.Close()
+			}
+		}()
+		x.VCreate(vexec.IndexCfg{Name: "docs", Metric: distance.Euclidean, Prec: distance.Float32, M: 4, EfC: 8})
+		x.VAdd("docs", "a", []float32{1, 2, 3}, nil)
+		x.VDelete("docs", "a")
+		x.Restart()
+		x.M.SeenIDs["c"] = true // part of every read-out from the start
+		before := vexec.Observe(x.E, x.M.Universe())
+		err := x.VAdd("docs", "c", []float32{1, 2, 3, 4}, map[string]any{"tag": "c"})
+		if err == nil {
+			return "" // acknowledged: no rejection, nothing to hold against C05
+		}
+		if d := vexec.Diff(before, vexec.Observe(x.E, x.M.Universe())); len(d) > 0 {
+			return fmt.Sprintf("rejected VAdd(docs,c,4-dim) (%v) changed the observable state: %s", err, d[0])
+		}
+		x.VAdd("docs", "a", []float32{4, 5, 6}, nil)
+		x.Settle()
+		b2 := vexec.Observe(x.E, x.M.Universe())
+		x.Restart()
+		if d := vexec.Diff(b2, vexec.Observe(x.E, x.M.Universe())); len(d) > 0 {
+			return fmt.Sprintf("VAdd(docs,c,[1 2 3 4]) into the emptied, restarted 3-dim index was rejected (%v); after VAdd(docs,a,3-dim) and a restart %d observable(s) changed, first: %s", err, len(d), d[0])
+		}
+		if msg := x.CheckFull(); msg != "" {
+			return "after the restart: " + msg
+		}
+		return ""
+	})
+	// D-C05-2: a, b linked b -> a; VEvolve(a) with a 4-dim vector on the 3-dim index is rejected
+	// by the add of the new node, after the edges to / from the new id were written.
+	ctx.Probe(c05DEvolve, func(cs *vkit.Case) string {
+		x := vexec.NewExec(cs, cs.SubDir("data"))
+		defer func() {
+			if x.E != nil {
+				x.E.Close()
+			}
+		}()
+		x.VCreate(vexec.IndexCfg{Name: "docs", Metric: distance.Euclidean, Prec: distance.Float32, M: 4, EfC: 8})
+		x.VAdd("docs", "a", []float32{1, 2, 3}, nil)
+		x.VAdd("docs", "b", []float32{4, 5, 6}, nil)
+		x.VLink("docs", "b", "a", "r", "", 1, nil)
+		return c05EvolveBadDim(cs, x, "docs", "a", []float32{1, 2, 3, 4}, nil)
+	})
+}
+
+// c05NoVerdict ends a case without a verdict (see c05Restart).
+type c05NoVerdict struct{ why string }
+
+// c05Restart is Exec.Restart with one difference: hnsw.Index.Close gives up after a wall-clock
+// limit of its own (10 s, "close timed out ... waiting for in-flight operations"), which a
+// starved machine trips without any operation being in flight (seen once in 82 000 episodes
+// at a load average of 500; the same episode replayed passes). A wall-clock value must not
+// decide a verdict: such a case is abandoned and counted (no_verdict.close_timeout).
+func c05Restart(x *vexec.Exec) {
+	x.Kinds = append(x.Kinds, "restart")
+	x.Settle()
+	if err := x.CloseRaw(); err != nil {
+		if strings.Contains(err.Error(), "close timed out") {
+			panic(c05NoVerdict{err.Error()})
+		}
+		x.CS.Fail("Close returned error: %v", err)
+	}
+	x.Reopen()
+}
+
+// c05RestartCheck is c01Restart (state identical across Close/Open, equal to the model, searches
+// unchanged, indexes usable) on top of c05Restart.
+func c05RestartCheck(ctx *vkit.Ctx, cs *vkit.Case, x *vexec.Exec, where string) {
+	x.Settle()
+	if msg := x.CheckFull(); msg != "" { // binds clock-chosen values before the restart
+		cs.Fail("%s: state before restart already disagrees with the model: %s", where, msg)
+	}
+	u := x.M.Universe()
+	before := vexec.Observe(x.E, u)
+	probes := c01SearchProbe(ctx, cs, x, where, nil)
+	c05Restart(x)
+	after := vexec.Observe(x.E, u)
+	if d := vexec.Diff(before, after); len(d) > 0 {
+		cs.Attach("diff", d)
+		cs.Fail("%s: %d observable(s) changed across Close/Open, first: %s", where, len(d), d[0])
+	}
+	if msg := x.CheckFull(); msg != "" {
+		cs.Fail("%s: after restart: %s", where, msg)
+	}
+	ctx.Count("restarts", 1)
+	ctx.Count("observables_compared", int64(len(before.Vals)+len(before.Vecs)))
+	// replay may itself write (cascade repairs, re-journaled quantizer range): a second
+	// restart right away must not change anything either
+	if cs.R.Chance(0.2) {
+		c05Restart(x)
+		again := vexec.Observe(x.E, u)
+		if d := vexec.Diff(before, again); len(d) > 0 {
+			cs.Attach("diff", d)
+			cs.Fail("%s: %d observable(s) changed across a second immediate Close/Open, first: %s", where, len(d), d[0])
+		}
+		ctx.Count("restarts.immediate_second", 1)
+	}
+	c01SearchProbe(ctx, cs, x, where, probes)
+	// usability of the indexes that hold vectors (those without: see the caller): add / read /
+	// link / unlink / delete
+	for _, name := range vexec.SortedKeys(x.M.Idx) {
+		mi := x.M.Idx[name]
+		if len(mi.Recs) == 0 || mi.Dim == 0 {
+			continue
+		}
+		v := make([]float32, mi.Dim)
+		for i := range v {
+			v[i] = 0.25 * float32(i+1)
+		}
+		id := fmt.Sprintf("probe%d", x.Restarts)
+		x.VAdd(name, id, v, map[string]any{"probe": true})
+		if msg := x.CheckRecord(name, id); msg != "" {
+			cs.Fail("%s: usability after restart: %s", where, msg)
+		}
+		if tgt := vexec.SortedKeys(mi.Recs)[0]; tgt != id {
+			x.VLink(name, id, tgt, "probe_rel", "", 1, nil)
+			if l, _ := x.E.VGetLinks(name, id, "probe_rel"); len(l) != 1 || l[0] != tgt {
+				cs.Fail("%s: usability after restart: VGetLinks(%s,%s,probe_rel)=%v want [%s]", where, name, id, l, tgt)
+			}
+			x.VUnlink(name, id, tgt, "probe_rel", "", true)
+		}
+		x.VDelete(name, id)
+		if msg := x.CheckRecord(name, id); msg != "" {
+			cs.Fail("%s: usability after restart: %s", where, msg)
+		}
+	}
+}
+
+// c05Shape brings one index into a state that ordinary histories reach rarely and that the
+// validation of a later call may judge differently from the storage below it: EMPTIED (it held
+// vectors, every one of them was deleted), optionally followed by a vacuum, a snapshot, a log
+// rewrite or a restart (each changes what is left of the deleted vectors: soft-deleted nodes,
+// nothing but the arena, a snapshot without nodes, a replayed log). Returns a label or "".
+func c05Shape(cs *vkit.Case, x *vexec.Exec, g *vexec.Gen) string {
+	r := cs.R
+	var cands []string
+	for _, name := range vexec.SortedKeys(x.M.Idx) {
+		if n := len(x.M.Idx[name].Recs); n > 0 && n <= 12 {
+			cands = append(cands, name)
+		}
+	}
+	if len(cands) == 0 {
+		return ""
+	}
+	ix := vkit.Pick(r, cands)
+	for _, id := range vexec.SortedKeys(x.M.Idx[ix].Recs) {
+		x.VDelete(ix, id)
+	}
+	label := "emptied"
+	switch r.Intn(8) {
+	case 0:
+		x.Maintenance(ix, "vacuum")
+		label += "+vacuum"
+	case 1:
+		x.SaveSnapshot()
+		label += "+snapshot"
+	case 2:
+		x.RewriteAOF()
+		label += "+rewrite"
+	case 3:
+		c05Restart(x)
+		label += "+restart"
+	}
+	return label
+}
+
+// c05Usable: the index takes, returns, finds and deletes a fresh vector of its dimension.
+// An index without vectors is covered too (an emptied one must still take the vectors it
+// took before; one that never held a vector takes the generator's dimension).
+func c05Usable(cs *vkit.Case, x *vexec.Exec, g *vexec.Gen, name, id, where string) {
+	mi := x.M.Idx[name]
+	dim := mi.Dim
+	if dim == 0 {
+		dim = g.Dim
+	}
+	wasEmpty := len(mi.Recs) == 0
+	v := make([]float32, dim)
+	for i := range v {
+		v[i] = cs.R.F32()
+	}
+	x.VAdd(name, id, v, map[string]any{"use": true})
+	if msg := x.CheckRecord(name, id); msg != "" {
+		cs.Fail("index unusable %s: %s", where, msg)
+	}
+	if ids, err := x.E.VSearch(name, v, 3, "", "", 0, 1.0, nil); err != nil {
+		cs.Fail("search fails %s: %v", where, err)
+	} else if wasEmpty && (len(ids) != 1 || ids[0] != id) {
+		cs.Fail("index unusable %s: the only vector of %s (%s) is searched with itself and the result is %v", where, name, id, ids)
+	}
+	if ids, err := x.E.VFilter(name, "use=true", 10); err != nil {
+		cs.Fail("filter fails %s: %v", where, err)
+	} else if wasEmpty && (len(ids) != 1 || ids[0] != id) {
+		cs.Fail("index unusable %s: VFilter(%s, use=true) = %v, want [%s]", where, name, ids, id)
+	}
+	if cs.R.Chance(0.5) || (wasEmpty && cs.R.Chance(0.6)) {
+		x.VDelete(name, id)
+	}
 }
 
 // C05 — a rejected operation changes nothing, now or after a restart.
 func TestVerifC05(t *testing.T) {
 	vkit.Run(t, "C05", func(ctx *vkit.Ctx) {
+		c05Probes(ctx)
 		ctx.Group("plant", ctx.N(6000, 100000), func(cs *vkit.Case) {
 			x := vexec.NewExec(cs, cs.SubDir("data"))
 			defer func() {
@@ -246,22 +635,48 @@ func TestVerifC05(t *testing.T) {
 					x.E.Close()
 				}
 			}()
+			defer func() {
+				if r := recover(); r != nil {
+					nv, ok := r.(c05NoVerdict)
+					if !ok {
+						if fmt.Sprintf("%T", r) != "vkit.failSentinel" { // a real panic: keep its stack
+							cs.Attach("panic_stack", strings.Split(string(debug.Stack()), "\n"))
+						}
+						panic(r)
+					}
+					cs.Op("case abandoned without a verdict: %s", nv.why)
+					ctx.Count("no_verdict.close_timeout", 1)
+				}
+			}()
 			g := vexec.NewGen(cs.R)
+			guard := newC05Guard(ctx)
 			for i := 0; i < cs.R.Range(6, 25); i++ {
 				g.Step(x)
+				guard.sync(x)
 			}
 			var labels []string
 			nplants := cs.R.Range(2, 6)
 			for p := 0; p < nplants; p++ {
+				if cs.R.Chance(0.3) {
+					if sh := c05Shape(cs, x, g); sh != "" {
+						ctx.Count("shape."+sh, 1)
+						labels = append(labels, "<"+sh+">")
+					}
+					guard.sync(x)
+				}
 				if msg := x.CheckFull(); msg != "" { // bind clock values; state must be sane before the plant
 					cs.Fail("before plant: %s", msg)
 				}
 				u := x.M.Universe()
 				before := vexec.Observe(x.E, u)
 				nk := len(x.Kinds)
-				label := c05Plant(cs, x, g)
+				label := c05Plant(cs, x, g, guard)
+				guard.sync(x)
 				if label == "" {
 					continue
+				}
+				if strings.HasSuffix(label, "(acknowledged)") {
+					ctx.Count("not_a_rejection."+label, 1)
 				}
 				if x.Rejected {
 					// the LAST call of the plant was the rejected one; earlier calls of a
@@ -283,30 +698,14 @@ func TestVerifC05(t *testing.T) {
 				}
 				// the affected indexes stay fully usable
 				for _, name := range vexec.SortedKeys(x.M.Idx) {
-					mi := x.M.Idx[name]
-					if len(mi.Recs) == 0 {
-						continue
+					if len(x.M.Idx[name].Recs) == 0 {
+						if !cs.R.Chance(0.7) { // sometimes the emptied state is kept for the next plant
+							continue
+						}
+						ctx.Count("usable.index_without_vectors", 1)
 					}
-					v := make([]float32, mi.Dim)
-					for i := range v {
-						v[i] = cs.R.F32()
-					}
-					id := fmt.Sprintf("use%d_%d", p, len(x.Kinds))
-					x.VAdd(name, id, v, map[string]any{"use": true})
-					if msg := x.CheckRecord(name, id); msg != "" {
-						cs.Fail("index unusable after rejected call (%s): %s", label, msg)
-					}
-					if ids, err := x.E.VSearch(name, v, 3, "", "", 0, 1.0, nil); err != nil {
-						cs.Fail("search fails after rejected call (%s): %v", label, err)
-					} else {
-						_ = ids
-					}
-					if _, err := x.E.VFilter(name, "use=true", 10); err != nil {
-						cs.Fail("filter fails after rejected call (%s): %v", label, err)
-					}
-					if cs.R.Chance(0.5) {
-						x.VDelete(name, id)
-					}
+					c05Usable(cs, x, g, name, fmt.Sprintf("use%d_%d", p, len(x.Kinds)), "after rejected call ("+label+")")
+					guard.had[x.M.Idx[name]] = true // took a vector (it may have been deleted again)
 				}
 				for i := 0; i < cs.R.Range(0, 6); i++ {
 					if cs.R.Chance(0.1) {
@@ -314,9 +713,19 @@ func TestVerifC05(t *testing.T) {
 					} else {
 						g.Step(x)
 					}
+					guard.sync(x)
 				}
 			}
-			c01Restart(ctx, cs, x, "after planted rejections "+strings.Join(labels, ","))
+			where := "after planted rejections " + strings.Join(labels, ",")
+			c05RestartCheck(ctx, cs, x, where)
+			// the recovered indexes that hold no vector (c05RestartCheck probes only the others)
+			// must take what they took before the rejected calls
+			for _, name := range vexec.SortedKeys(x.M.Idx) {
+				if len(x.M.Idx[name].Recs) == 0 {
+					c05Usable(cs, x, g, name, fmt.Sprintf("reuse%d", len(x.Kinds)), where+", after the restart")
+					ctx.Count("usable.after_restart_index_without_vectors", 1)
+				}
+			}
 			ctx.Eval(1)
 			if len(labels) > 0 {
 				ctx.Distinct(strings.Join(labels, ",") + "|" + x.KindKey())
